@@ -45,7 +45,13 @@ class Streams:
         self.origin = []
         self.gsv, err = common.build_gsv()
         if self.gsv is None:
-            raise RuntimeError("implementation harness failed to build:\n" + err)
+            # the in-crate harness does not compile against the current tree: the correspondence cannot be
+            # run. That is a broken tie, not by itself a violation; the e2e oracles still search for an input.
+            errs = [l for l in err.splitlines() if l.startswith("error")][:3]
+            chk.violation("correspondence", "the Rust harness does not build against /repo's current tree: "
+                          + " | ".join(errs)[:300],
+                          {"kind": "correspondence", "broken": ["build of harness/rust against /repo"],
+                           "build_errors": err[-1500:]}, no_input=True)
 
     def add(self, name, lines):
         self.names.append(name)
@@ -53,6 +59,10 @@ class Streams:
         self.origin += [name] * len(lines)
 
     def run(self):
+        if self.gsv is None:
+            self.impl = ["<nobuild>"] * len(self.lines)
+            self.model = None
+            return self
         self.impl, rc, err = common.run_gsv(self.gsv, self.lines)
         if len(self.impl) != len(self.lines):
             # the harness process died (abort / stack overflow): find the line
